@@ -41,6 +41,7 @@ class Profile:
         self.p_active_guard = 0.12     # guards that also read the configuration through active()
         self.active_in_actions = True  # actions may read the configuration through active()
         self.use_objects = False        # context holds an object, a list and a function defined in the preamble (b, l, ok)
+        self.p_event_probe = True      # entry / exit / action code may probe whether `event` is exposed to it
         self.p_brace_guard = 0.06      # guards whose text contains braces
         self.p_prefix_names = 0.08     # per chart: every state name is a proper prefix of the next one (n, n0, n00, ...)
         self.p_char_names = 0.12       # per chart: three states named by single characters occurring in the other names
@@ -137,6 +138,9 @@ class Gen:
                                              (['k = k + 1', 'k = k + x'] if self.p.use_k else [])))
             elif r < 0.83 and self.p.active_in_actions:
                 parts.append("y = y + (1 if active('%s') else 0)" % self.rng.choice(self.pool))
+            elif r < 0.86 and self.p.p_event_probe:
+                # code that asks whether `event` is exposed to it (documented: to actions, not to entry / exit code)
+                parts.append("try:\n    w = event is None\nexcept NameError:\n    w = 2")
             elif r < 0.9:
                 parts.append('z%d = time' % self.rng.randint(0, 1))
             elif self.p.use_tick:
